@@ -219,6 +219,62 @@ func callStrings(b *Built, kinds map[string]int) []propFail {
 	return fails
 }
 
+// checkEnumAttributes: String() and the exporters print EnumAttribute.Values(); it must be the
+// value list of the factory call without repetitions, in order of first occurrence (contiguous
+// indexes), and GetValueAtIndex must agree with it.
+func checkEnumAttributes(sp *Spec, b *Built, kinds map[string]int) (fails []propFail) {
+	for i, as := range sp.Attrs {
+		if as.Kind != 4 || b.Attrs[i] == nil {
+			continue
+		}
+		var want []string
+		seen := map[string]bool{}
+		rep := "none"
+		for j, v := range as.EnumVals {
+			if seen[v] {
+				if j == len(as.EnumVals)-1 && rep == "none" {
+					rep = "last"
+				} else {
+					rep = "inner"
+				}
+				continue
+			}
+			seen[v] = true
+			want = append(want, v)
+		}
+		kinds["enum-attribute-repeats-"+rep]++
+		func() {
+			defer func() {
+				if r := recover(); r != nil {
+					fails = append(fails, propFail{"enum-attribute-values-panic-repeat-" + rep,
+						fmt.Sprintf("EnumAttribute.Values() of NewEnumAttribute(%q, %q...) panicked: %v", as.Name, as.EnumVals, r)})
+				}
+			}()
+			ea, err := b.Attrs[i].ToEnum()
+			if err != nil {
+				return
+			}
+			got := ea.Values()
+			if strings.Join(got, "\x00") != strings.Join(want, "\x00") {
+				fails = append(fails, propFail{"enum-attribute-values-repeat-" + rep,
+					fmt.Sprintf("EnumAttribute.Values() = %q for the value list %q, want %q", got, as.EnumVals, want)})
+				return
+			}
+			for k, w := range want {
+				if v, err := ea.GetValueAtIndex(k); err != nil || v != w {
+					fails = append(fails, propFail{"enum-attribute-index-repeat-" + rep,
+						fmt.Sprintf("GetValueAtIndex(%d) = %q, %v for the value list %q, want %q", k, v, err, as.EnumVals, w)})
+					return
+				}
+			}
+			if ea.DefValue() != as.EnumVals[0] {
+				fails = append(fails, propFail{"enum-attribute-default", fmt.Sprintf("DefValue() = %q, want %q", ea.DefValue(), as.EnumVals[0])})
+			}
+		}()
+	}
+	return fails
+}
+
 func exportMD(net *a.Network) (text string, err error, panicked any) {
 	defer func() {
 		if r := recover(); r != nil {
@@ -259,6 +315,9 @@ func main() {
 	for i := 0; i < n; i++ {
 		r := &rng{s: seed*1000003 + uint64(i)}
 		sp := genSpec(r, genOpts{MaxDepth: 1 + i%3})
+		if i%8 == 5 { // guaranteed deep nesting: 3..5 multiplexer levels around an enum with values
+			addDeepChain(sp, r, 3+(i/8)%3)
+		}
 		if only >= 0 && i != only {
 			continue
 		}
@@ -291,6 +350,7 @@ func main() {
 			}
 		}
 		cf = append(cf, callStrings(b, kinds)...)
+		cf = append(cf, checkEnumAttributes(sp, b, kinds)...)
 		if maxDepth > maxDepthAll {
 			maxDepthAll = maxDepth
 		}
